@@ -783,6 +783,51 @@ def sym_validate_custom(vc):
             expect_no_raise_or_same(vc, fk, paths)
 
 
+def sym_validate_failing_check(vc):
+    """validate(<check>) with a check that RAISES (a comparison with a null, int('n/a'), a bug in the check): the exception is the
+    step's failure -- it leaves the validator as it was raised, the error policy is not consulted and the row is not passed on
+    (C04: a failing step never yields a successful run; the policy is for INVALID VALUES, not for failing code)"""
+    from pyvc.api import SpecModule, real_function, LoopSpec, check, cover, yields_of, ufunc, UFunc
+    from pyvc.symex import PyExc
+    from pyvc import lib
+    fk = vc.under_contract(P + 'validate.py', ['validate', 'rows_validator', 'func'])
+    for form in ('row', 'field'):
+        for cls in ('TypeError', 'ValueError', 'KeyError'):
+            def thunk(it, form=form, cls=cls):
+                V = real_function(it, 'dataflows.processors.validate', 'validate')
+                hraw = ufunc('on_error', pure=False, mutates_row=1, params=['res_name', 'row', 'i', 'e', 'field'])
+                boom = lib.ExcV(cls, ('raised by the check',))
+                chk = UFunc('user_check', lambda it_, a, k: (_ for _ in ()).throw(PyExc(boom)), True)
+                vm = SpecModule('def row_ok(row):\n    return user_check(row)\n\ndef value_ok(v):\n    return user_check(v)\n').bind(it, user_check=chk)
+                v = it.call(V, [vm.attrs['row_ok']] if form == 'row' else ['fld', vm.attrs['value_ok']], dict(on_error=hraw))
+                r = mk_resource(it, 'res')
+                from pyvc.api import Opaque
+                schema = Opaque('Schema', 'schema')
+                schema.attrs['call:get_field'] = lambda it_, o, a, k: Opaque('Field', 'schema_field_fld')
+                r.attrs['res'].attrs['schema'] = schema
+                tag = '[%s,%s]' % (form, cls)
+
+                def at_end(it, env, cap, events):
+                    check(it, 'a-row-whose-check-raised-is-not-passed-on-and-the-policy-is-not-consulted' + tag, False)
+                it.loops['func#L0'] = LoopSpec(at_start=lambda it, env, e: e, at_end=at_end)
+                try:
+                    it.run_generator(it.call(it.lib.getattr_(it, v, 'validator'), [r]))
+                except PyExc as pe:
+                    evs = it.path.events
+                    check(it, 'the-exception-of-the-check-gets-out-as-raised' + tag, pe.exc is boom)
+                    check(it, 'error-policy-not-consulted-for-a-failing-check' + tag, not [e for e in evs if e.kind == 'Call' and e.target == 'on_error'])
+                    check(it, 'no-row-passed-on' + tag, not yields_of(evs))
+                    cover(it, 'raise-reachable' + tag)
+                    it.path.info['expect_exc'] = cls
+                    it.path.info['in_iter'] = True
+                    raise
+            paths = vc.explore(fk, thunk, min_paths=2)
+            # (the only exceptional end is the check's own exception)
+            for p_ in paths or []:
+                if p_.end == 'raise':
+                    p_.info['upstream_raise'] = True
+
+
 def sym_validate_with_schema(vc):
     from pyvc.api import real_function, check, GenObj
     fk = vc.under_contract(P + 'validate.py', ['validate', 'validate_with_schema', 'func'])
@@ -838,5 +883,6 @@ ITEMS = [
          P + 'set_type.py::set_type.process_datapackage'),
     Item('validate.custom', sym_validate_custom, [('differential', nat_validate)], P + 'validate.py::validate.rows_validator.func'),
     Item('validate.schema', sym_validate_with_schema, [], P + 'validate.py::validate.validate_with_schema.func'),
+    Item('validate.failing-check', sym_validate_failing_check, [], P + 'validate.py::validate.rows_validator.func'),
     Item('recorded-findings', None, [('bounded', KF.nat_findings_c14)], 'dataflows/base/schema_validator.py::schema_validator'),
 ]
